@@ -24,6 +24,13 @@ type eventSerializer struct {
 
 type msgpackBlock []byte
 
+const (
+	maxStringHeaderLength = 5          // longest header of a string value (str32)
+	minHeadLength         = 1 + 10 + 3 // root array header, event time and the longest header of root map
+	minTailLength         = 1 + 11 + 3 // the "environment" key and the longest header of environment map
+	minBufferLength       = minHeadLength + minTailLength
+)
+
 // MustNewEventSerializer creates ForwardLogEventSerializer or panic
 func MustNewEventSerializer(parentLogger logger.Logger, schema base.LogSchema, config SerializationConfig) base.LogSerializer {
 	s, err := NewEventSerializer(parentLogger, schema, config)
@@ -92,6 +99,9 @@ func (packer *eventSerializer) encodeRecord(record *base.LogRecord, buffer []byt
 	// encode log records into chunks of [timestamp, field-map] in msgpack
 	fields := record.Fields[0:len(packer.fieldMasks)] // hide unnamed/reserved fields at the end
 	position := 0
+	if len(buffer) < minBufferLength {
+		return packer.onOverflow(position)
+	}
 
 	// root-array
 	position = fastmsgpack.EncodeArrayLen4(buffer, position, 2)
@@ -118,15 +128,18 @@ func (packer *eventSerializer) encodeRecord(record *base.LogRecord, buffer []byt
 				continue
 			}
 
-			// encode field key (pre-serialized)
-			position += copy(buffer[position:], serializedFieldKeys[i])
-
-			// encode field value
+			fieldKey := serializedFieldKeys[i]
 			headRewriter := fieldRewriters[i]
 			if headRewriter != nil {
+				// make sure the key, the longest header and the rewritten value fit in the buffer before the tail
+				maxLength := headRewriter.MaxFieldLength(value, record)
+				if len(buffer)-position-minTailLength < len(fieldKey)+maxStringHeaderLength+maxLength {
+					return packer.onOverflow(position)
+				}
+				// encode field key (pre-serialized)
+				position += copy(buffer[position:], fieldKey)
 				// encode rewritten field length
 				reservedLengthPosition := position
-				maxLength := headRewriter.MaxFieldLength(value, record)
 				switch {
 				case maxLength < 65536:
 					position = fastmsgpack.EncodeStringLen16(buffer, position, maxLength)
@@ -145,6 +158,12 @@ func (packer *eventSerializer) encodeRecord(record *base.LogRecord, buffer []byt
 				}
 				position += actualLength
 			} else {
+				// make sure the key, the longest header and the value fit in the buffer before the tail
+				if len(buffer)-position-minTailLength < len(fieldKey)+maxStringHeaderLength+len(value) {
+					return packer.onOverflow(position)
+				}
+				// encode field key (pre-serialized)
+				position += copy(buffer[position:], fieldKey)
 				// no rewriter, just encode the raw field value directly
 				switch {
 				case len(value) < 16:
@@ -182,10 +201,14 @@ func (packer *eventSerializer) encodeRecord(record *base.LogRecord, buffer []byt
 
 		// root-array[1]: field-map["environment"] map key-value pairs
 		for i, loc := range envFieldLocators {
-			// copy the key which is pre-serialized
-			position += copy(buffer[position:], serializedEnvFieldKeys[i])
-			// encode the value
+			envFieldKey := serializedEnvFieldKeys[i]
 			value := loc.Get(fields)
+			if len(buffer)-position < len(envFieldKey)+maxStringHeaderLength+len(value) {
+				return packer.onOverflow(position)
+			}
+			// copy the key which is pre-serialized
+			position += copy(buffer[position:], envFieldKey)
+			// encode the value
 			switch {
 			case len(value) < 16:
 				position = fastmsgpack.EncodeString4(buffer, position, value)
@@ -197,11 +220,13 @@ func (packer *eventSerializer) encodeRecord(record *base.LogRecord, buffer []byt
 		}
 	}
 
-	if position == len(buffer) {
-		packer.logger.Errorf("serialized log exceeds buffer limit: %d", position)
-		return 0
-	}
 	return position
+}
+
+// onOverflow reports a log record which cannot fit in the serialization buffer; the record is skipped
+func (packer *eventSerializer) onOverflow(position int) int {
+	packer.logger.Errorf("serialized log exceeds buffer limit: %d", position)
+	return 0
 }
 
 // serializeStrings serializes a slice of strings to a slice of msgpack blocks
